@@ -628,6 +628,11 @@ Definition dc_entries_pol (single : bool) (h : heap) (cs : list (Z * val)) : opt
 Definition dict_update (cs new : list (Z * val)) : list (Z * val) :=
   fold_left (fun acc kv => cell_set (fst kv) (snd kv) acc) new cs.
 
+(* fix eb971db: `for k in [k for k in copied.__dict__ if k not in self.__dict__]: del copied.__dict__[k]` — what __init__ of the
+   class as it is NOW set up beyond the original's entries is dropped *)
+Definition has_key (k : Z) (cs : list (Z * val)) : bool := match cell_get k cs with Some _ => true | None => false end.
+Definition keep_keys (orig cs : list (Z * val)) : list (Z * val) := filter (fun kv => has_key (fst kv) orig) cs.
+
 Definition copy_M (K : consts) (h : heap) (r : loc) : option (heap * loc) :=
   match nth_error h r with
   | None => None
@@ -648,7 +653,7 @@ Definition copy_M (K : consts) (h : heap) (r : loc) : option (heap * loc) :=
             | Some (h3, cs') =>
               match nth_error h3 (snd (fst i)) with
               | None => None
-              | Some o' => Some (set_obj h3 (snd (fst i)) (mkObj (okind o') (dict_update (ocells o') cs')), snd (fst i))
+              | Some o' => Some (set_obj h3 (snd (fst i)) (mkObj (okind o') (keep_keys (ocells o) (dict_update (ocells o') cs'))), snd (fst i))
               end
             end
           else None
@@ -718,7 +723,7 @@ Definition linker_copy_M (K : consts) (h : heap) (r : loc) : option (heap * loc)
             | Some (h3, es) =>
               match nth_error h3 (snd (fst i)) with
               | None => None
-              | Some o' => Some (set_obj h3 (snd (fst i)) (mkObj (okind o') (dict_update (ocells o') es)), snd (fst i))
+              | Some o' => Some (set_obj h3 (snd (fst i)) (mkObj (okind o') (keep_keys (ocells o) (dict_update (ocells o') es))), snd (fst i))
               end
             end
           else None
@@ -862,6 +867,13 @@ Inductive op : Type :=
 | OReplaceSeries (name : Z) (vs : list Z).         (* obj.name = <ndarray> : an array is no Sequence, so __setattr__ writes its
                                                       VALUES in place (self._name[:] = value); a shape mismatch raises *)
 
+Fixpoint list_eqb {X} (eqb : X -> X -> bool) (a b : list X) : bool :=
+  match a, b with
+  | [], [] => true
+  | x :: r, y :: q => eqb x y && list_eqb eqb r q
+  | _, _ => false
+  end.
+
 Definition is_empty_trace (h : heap) (r : loc) (t : Z) : bool :=
   Nat.eqb (arr_len h r [V N_trace; t; A N_values]) 0.
 
@@ -893,6 +905,7 @@ Definition compile_op (K : consts) (h : heap) (r : loc) (o : op) : list action :
     if zmem x (scalars_path h r [A N_index]) then [AReplace [V x] (repeat v (arr_len h r [V x]))] else []
   | OAddVariable name dt vs =>
     if zmem name (scalars_path h r [A N_index]) then []                                                        (* DuplicateNameError *)
+    else if has_cell h r (V name) then []                    (* fix d82b358: the storage key '_' + name is taken: DuplicateNameError *)
     else add_variable_acts name dt vs
          ++ (if has_cell h r (A N_names) then [AAppend [A N_names] (SScalar name)] else [])
   | OSetAttr name v =>
@@ -919,7 +932,8 @@ Definition compile_op (K : consts) (h : heap) (r : loc) (o : op) : list action :
   | OTraceT t label m reset =>
     let names := trace_names h r m in
     let col := map (fun x => cell_scalar h r [V (resolve_alias h r x)] t) names in
-    let fresh := is_empty_trace h r t || reset in
+    (* fix 7d04ae5: a Trace that holds OTHER names is replaced, too (fix 3b0200f: so is a cell that holds no Trace at all) *)
+    let fresh := is_empty_trace h r t || reset || negb (list_eqb Z.eqb (scalars_path h r [V N_trace; t; A N_names]) names) in
     let old := if fresh then [] else scalars_path h r [V N_trace; t; A N_values] in
     (* since fix cfb58ac: `names = list(names)` — the Trace gets a list of its own in every mode *)
     (if fresh then trace_cell_acts [V N_trace] t (new_list names) K else [])
@@ -1150,13 +1164,6 @@ Definition run_hevent (K : consts) (s : state) (e : hevent) : state :=
 Definition run_hevents (K : consts) (s : state) (es : list hevent) : state := fold_left (run_hevent K) es s.
 
 (* ------------------------------------------------------------------ correspondence cases *)
-Fixpoint list_eqb {X} (eqb : X -> X -> bool) (a b : list X) : bool :=
-  match a, b with
-  | [], [] => true
-  | x :: r, y :: q => eqb x y && list_eqb eqb r q
-  | _, _ => false
-  end.
-
 Definition path_eqb : list Z -> list Z -> bool := list_eqb Z.eqb.
 Definition share_eqb (a b : nat * nat * list (list Z * list Z)) : bool :=
   Nat.eqb (fst (fst a)) (fst (fst b)) && Nat.eqb (snd (fst a)) (snd (fst b)) &&
